@@ -1,5 +1,5 @@
 CONSTANTS
-  Steps = {"print", "raise", "close_stdout", "close_fd", "log_disable", "seed", "draw", "mutate_global"}
+  Steps = {"print", "raise", "close_stdout", "close_fd", "log_disable", "seed", "draw", "draw_inst", "log_hang", "mutate_global"}
   MaxTests = 3
   MaxSteps = 2
   RestoreLogging = FALSE
